@@ -2,27 +2,199 @@
 
 Engine E5 `etstress`, profile `timers`: 3 back ends x {fresh, idle kept-open (STAYOPEN), busy connection} x
 {server answers, stays silent, closes}; the probe request is issued at a seeded offset after the event thread
-went to sleep; bounded-completion monitor only (keys `timer:et:*`).  Also home of the shared etstress plumbing
-(harness registration, chunk-of-one exploration) used by checks/C11.py."""
+went to sleep; bounded-completion monitor only (keys `timer:et:*`).
+
+Also home of the shared etstress plumbing used by checks/C11.py: harness registration, the one-case-per-process
+runner and the ThreadSanitizer report keyer (lib/vdriver.py's generic keyer does not read gcc's TSan frame
+format and keys by innermost frames, which explodes for one missing lock; see `tsan_keys`)."""
+import concurrent.futures as cf
+import os
+import re
+import shutil
 from checks import common
 import vdriver
 
 WRAPS = ("pthread_mutex_lock", "pthread_mutex_unlock", "pthread_cond_wait", "pthread_cond_timedwait",
-         "pthread_cond_signal", "pthread_cond_broadcast", "epoll_wait", "poll", "select", "inotify_add_watch")
+         "pthread_cond_signal", "pthread_cond_broadcast", "pthread_create", "epoll_wait", "poll", "select",
+         "inotify_add_watch")
 common.HARNESSES["etstress"] = dict(srcs=["harness/etstress/etstress.c"], flavor="tsan",
+                                    cflags="-Wall -Wno-deprecated-declarations -Wno-unused-function",
                                     ldflags=" ".join("-Wl,--wrap=%s" % w for w in WRAPS))
 
-# TSan must keep going after a report (the other monitors still have to run) and must not let the leak/race
-# summary of one case be lost: one case per worker process, exit code 66 when anything was reported.
-ENV = {"TSAN_OPTIONS": vdriver.SAN_ENV["TSAN_OPTIONS"] + ":report_thread_leaks=1:report_signal_unsafe=0"}
+ENV = {"TSAN_OPTIONS": vdriver.SAN_ENV["TSAN_OPTIONS"] + ":report_thread_leaks=1"}
+
+# ---------------------------------------------------------------------------------------------------------
+# ThreadSanitizer report keyer.
+#   key = tsan:<kind>:<side>|<side>     (one side for thread leaks)
+#   side = the innermost frame of that stack that lies in /src/lib but not in the generic layers (containers,
+#          buffers, thread/allocator wrappers): the function whose logic touches the shared state;
+#          `reload-thread` when the stack runs on the library's configuration-reload thread
+#          (outermost frame ares_reinit_thread): what such a thread races with matters, not where it was.
+#          `ares_destroy` / `ares_library_cleanup` when the stack is inside those teardown entry points.
+#   order: data races: sides that held NO mutex first (the culprit of a forgotten lock), then alphabetical; so
+#          a known finding "entry point X forgets the lock" is the anchored prefix `tsan:data-race:X|`.
+#          other kinds: report order (faulting access first).
+#   descriptor races (`Location is file descriptor`): tsan:fd-race:<side operating on the stale number>.
+# ---------------------------------------------------------------------------------------------------------
+_FRAME = re.compile(r"^\s+#(\d+) (?:0x[0-9a-f]+ (?:in )?)?(\S+) (\S+)")
+_GENERIC = ("/src/lib/dsa/", "/src/lib/str/", "/src/lib/util/", "/src/lib/ares_library_init.c")
+_ACCESS = re.compile(r"^\s+(Read|Write|Atomic read|Atomic write|Previous read|Previous write|"
+                     r"Previous atomic read|Previous atomic write) of size")
+_SKIP_HDR = re.compile(r"^\s+(Location is|Mutex M\d+ \(|As if synchronized|Thread T\d+ \(.*\) created by|"
+                       r"Thread T\d+ \(.*running\)|Mutex M\d+ is already|Mutex M\d+ previously)")
 
 
-def explore(profile, seed, n, flavor, opts=None, workers=8, first=0):
-    """One case per worker process (a TSan report or the watchdog's exit is then attributed to that case and
-    no other case is lost); at most `workers` processes at a time, each has up to ~12 threads."""
+_FD_MAKERS = {"socket", "socketpair", "epoll_create1", "epoll_create", "inotify_init1", "inotify_init", "pipe",
+              "pipe2", "open", "close", "dup", "dup2", "accept", "eventfd", "fopen", "fclose", "creat", "openat"}
+
+
+# stacks that are named by what they ARE rather than by where they were: the library's reload thread, and the
+# teardown entry points (everything they free races the same way with a thread they failed to wait for)
+_ROLES = {"ares_reinit_thread": "reload-thread", "ares_destroy": "ares_destroy",
+          "ares_library_cleanup": "ares_library_cleanup"}
+
+
+def _side_label(frames):
+    lib = [(fn, loc) for fn, loc in frames if "/src/lib/" in loc and "/harness/" not in loc]
+    if not lib:
+        hs = [fn for fn, loc in frames if "/harness/" in loc and not fn.startswith("__wrap")]
+        for fn in hs:
+            if fn.startswith("et_api_"):       # harness frame named after the entry point it calls
+                return "ares_" + fn[len("et_api_"):]
+        return "harness:" + hs[0] if hs else "?"
+    if lib[-1][0] in _ROLES:
+        return _ROLES[lib[-1][0]]
+    for fn, loc in lib:
+        if fn in vdriver.ALLOC_WRAPPERS or any(g in loc for g in _GENERIC):
+            continue
+        return fn
+    return lib[0][0]
+
+
+def tsan_keys(text):
+    keys, details = [], []
+    blocks = re.split(r"^={18}\s*$", text, flags=re.M)
+    for blk in blocks:
+        m = re.search(r"WARNING: ThreadSanitizer: ([^(\n]+)\(pid", blk)
+        if not m:
+            continue
+        kind = "-".join(m.group(1).strip().split())
+        lines = blk.splitlines()
+        stacks = []   # (header, frames)
+        cur = None
+        for ln in lines:
+            fm = _FRAME.match(ln)
+            if fm:
+                if cur is not None:
+                    cur[1].append((fm.group(2), fm.group(3)))
+                continue
+            if ln.startswith("  ") and ln.rstrip().endswith(":") and not ln.startswith("    "):
+                cur = (ln, [])
+                stacks.append(cur)
+            elif not ln.strip():
+                cur = None
+        if "Location is file descriptor" in blk:
+            # descriptor races: creation/close of a descriptor number vs an operation on that number.  What
+            # matters is who operates on a stale number; whoever re-created the number is incidental.
+            ops = [s for s in stacks if _ACCESS.match(s[0]) and not
+                   (s[1] and s[1][0][0] in _FD_MAKERS)]
+            labels = sorted({_side_label(fr) for _, fr in ops}) or ["fd-reuse"]
+            key = "tsan:fd-race:%s" % "|".join(labels)
+            if key not in keys:
+                keys.append(key)
+                details.append(" ;; ".join("%s [%s]" % (h.strip()[:60], " < ".join(fn for fn, _ in fr[:6]))
+                                           for h, fr in stacks if _ACCESS.match(h))[:900])
+            continue
+        if kind == "thread-leak":
+            sides = [s for s in stacks if " created by " in s[0]][:1]
+        elif kind == "data-race":
+            sides = [s for s in stacks if _ACCESS.match(s[0])][:2]
+        else:
+            sides = [s for s in stacks if not _SKIP_HDR.match(s[0])][:2]
+        labelled = [(("(mutexes:" in h), _side_label(fr)) for h, fr in sides]
+        if kind == "data-race":
+            labelled.sort()          # sides holding no mutex first, then alphabetical
+        # other kinds (heap-use-after-free, ...) keep report order: the faulting access first
+        key = "tsan:%s:%s" % (kind, "|".join(l for _, l in labelled) or "?")
+        if key not in keys:
+            keys.append(key)
+            inner = []
+            for h, fr in sides:
+                inner.append("%s [%s]" % (h.strip()[:60], " < ".join(fn for fn, _ in fr[:6])))
+            details.append(" ;; ".join(inner)[:900])
+    return list(zip(keys, details))
+
+
+# ---------------------------------------------------------------------------------------------------------
+# runner: one case per worker process.  A TSan report (exit code 66 with halt_on_error=0) or the watchdog's
+# exit is attributed to exactly that case, the other monitors of the case still count, no other case is lost.
+# ---------------------------------------------------------------------------------------------------------
+def _one(spec, idx, timeout):
+    o = vdriver._run_chunk(spec, idx, 1, timeout)
+    r, last, ended = vdriver._parse(o["out"])
+    for v in r.violations:
+        v["spec"] = spec
+        v["log"] = ""
+    err = o["err"]
+    extra = []
+    if "ThreadSanitizer" in err:
+        for k, d in tsan_keys(err):
+            extra.append((k, d))
+    other = [k for k in vdriver.sanitizer_keys(err) if not k.startswith("tsan:")]
+    for k in other:
+        extra.append((k, "worker rc=%s" % o["rc"]))
+    if o["timed_out"]:
+        # the harness's own watchdogs leave long before the driver's timeout: undecidable, not a verdict
+        r.inconclusive["driver-timeout"] = r.inconclusive.get("driver-timeout", 0) + 1
+        if last is None:
+            r.evaluations += 1
+    elif last is None:
+        r.harness_errors.append("worker died before first case rc=%s: %s" % (o["rc"], err[-800:]))
+    elif not ended and not extra and not r.violations:
+        extra.append(("abort:rc%s:%s" % (o["rc"], spec["profile"]), "worker terminated without a report"))
+    elif ended and o["rc"] not in (0, 66) and not extra:
+        extra.append(("abort:rc%s:%s" % (o["rc"], spec["profile"]), "unexpected exit code"))
+    for k, d in extra:
+        r.violations.append(dict(idx=idx, key=k, detail=d, log=err[-6000:], spec=spec))
+    return r
+
+
+def explore(profile, seed, n, flavor, opts=None, workers=8, first=0, timeout=330):
     sp = common.spec("etstress", profile, seed, flavor=flavor, opts=opts or {}, env=ENV)
-    return vdriver.explore(sp, n, chunk=1, workers=workers, chunk_timeout=300, first=first,
-                           stop_after_violations=10 ** 6)
+    # private working directory: every worker creates its per-process scratch directory (resolv.conf, hosts,
+    # gdb output) below the current directory; a worker that crashes cannot tidy up, so the whole tree goes
+    work = os.path.join(vdriver.SCRATCH, "etstress-%d-%s" % (os.getpid(), profile))
+    os.makedirs(work, exist_ok=True)
+    sp["cwd"] = work
+    res = vdriver.Result()
+    try:
+        with cf.ThreadPoolExecutor(workers) as ex:
+            for r in ex.map(lambda i: _one(sp, i, timeout), range(first, first + n)):
+                res.merge(r)
+    finally:
+        shutil.rmtree(work, ignore_errors=True)
+    res.samples = res.samples[:6]
+    return res
+
+
+def foreign_listed_to_inconclusive(res, own, prop):
+    """A case that ended in a finding owned by ANOTHER property and already listed there as open is neither held
+    nor violated for this check: count it as inconclusive instead of printing the other property's finding again
+    (an unlisted foreign finding is still printed as FOREIGN-FINDING by the adjudication)."""
+    known = vdriver.Known()
+    keep = []
+    for v in res.violations:
+        o = own(v["key"])
+        if o != prop and known.match(o, v["key"]):
+            r = "foreign-known:%s" % o
+            res.inconclusive[r] = res.inconclusive.get(r, 0) + 1
+        else:
+            keep.append(v)
+    res.violations = keep
+
+
+def open_finding_ids():
+    return {e.get("id") for e in vdriver.Known().entries if e.get("status") == "open"}
 
 
 def run(tier, seed, scale=1.0):
